@@ -1,1 +1,89 @@
+// Kani harnesses for the assumed contract A-ARGSORT (specs/prelude/argsort.rs), child module of
+// src/algorithm/sort/quick_sort.rs.  Callers of Vec<T>::quick_argsort_mut are verified by Verus against
+//     requires len >= 1, no incomparable values (NaN)
+//     ensures  idx.len() == n == after.len(), every idx[i] < n, idx pairwise different (a permutation of 0..n),
+//              after[i] == before[idx[i]],  after ascending (after[i] <= after[i+1])
+// the body (insertion sort below 8 elements, median-of-three partitioning with an explicit stack above) is not a Verus unit.
+// Discharged here for every vector of length 1..=4 over ALL non-NaN f64 values (the function only compares and moves),
+// and at length 8 / 9 (the partitioning path, `ir - l >= 7`) for values from the constant set {0.0, 1.0, 2.0} (ties forced).
 use super::*;
+
+fn any_ordered() -> f64 {
+    let v: f64 = kani::any();
+    kani::assume(v == v);
+    v
+}
+
+fn pick3() -> f64 {
+    let s: u8 = kani::any();
+    kani::assume(s < 3);
+    match s {
+        0 => 0.0,
+        1 => 1.0,
+        _ => 2.0,
+    }
+}
+
+macro_rules! argsort_checks {
+    ($before:expr, $v:expr, $idx:expr, $n:expr) => {{
+        assert!($idx.len() == $n, "quick_argsort_mut: one index per element");
+        assert!($v.len() == $n, "quick_argsort_mut: the vector keeps its length");
+        let mut seen = [false; $n];
+        for i in 0..$n {
+            let p = $idx[i];
+            assert!(p < $n, "quick_argsort_mut: every returned index is in range");
+            assert!(!seen[p], "quick_argsort_mut: the returned indices are pairwise different (a permutation of 0..n)");
+            seen[p] = true;
+            assert!($v[i].to_bits() == $before[p].to_bits(), "quick_argsort_mut: new[i] == old[idx[i]]");
+        }
+        for i in 0..$n {
+            if i + 1 < $n {
+                assert!($v[i] <= $v[i + 1], "quick_argsort_mut: the vector is sorted ascending afterwards");
+            }
+        }
+    }};
+}
+
+macro_rules! h_argsort_any {
+    ($name:ident, $n:expr, $unw:expr) => {
+        #[kani::proof]
+        #[kani::unwind($unw)]
+        fn $name() {
+            const N: usize = $n;
+            let mut before = [0.0f64; N];
+            let mut v: Vec<f64> = Vec::with_capacity(N);
+            for i in 0..N {
+                before[i] = any_ordered();
+                v.push(before[i]);
+            }
+            let idx = v.quick_argsort_mut();
+            argsort_checks!(before, v, idx, N);
+            kani::cover!(idx[0] == N - 1);
+        }
+    };
+}
+h_argsort_any!(c04_argsort_n1, 1, 8);
+h_argsort_any!(c04_argsort_n2, 2, 8);
+h_argsort_any!(c04_argsort_n3, 3, 8);
+h_argsort_any!(c04_argsort_n4, 4, 8);
+
+macro_rules! h_argsort_set {
+    ($name:ident, $n:expr, $unw:expr) => {
+        #[kani::proof]
+        #[kani::unwind($unw)]
+        fn $name() {
+            const N: usize = $n;
+            let mut before = [0.0f64; N];
+            let mut v: Vec<f64> = Vec::with_capacity(N);
+            for i in 0..N {
+                before[i] = pick3();
+                v.push(before[i]);
+            }
+            let idx = v.quick_argsort_mut();
+            argsort_checks!(before, v, idx, N);
+            kani::cover!(idx[0] == N - 1 && v[0] < v[N - 1]);
+        }
+    };
+}
+h_argsort_set!(c04_argsort_n8_partition, 8, 12);
+h_argsort_set!(c04_argsort_n9_partition, 9, 12);
